@@ -188,7 +188,10 @@ func (t *KernMethod) LockGovernTokens(ctx contract.KContext) (*contract.Response
 		return nil, fmt.Errorf("lock gov tokens failed, query account balance error")
 	}
 	amountLock := big.NewInt(0)
-	amountLock.SetString(string(amountBuf), 10)
+	_, isAmount := amountLock.SetString(string(amountBuf), 10)
+	if !isAmount || amountLock.Cmp(big.NewInt(0)) == -1 {
+		return nil, fmt.Errorf("lock gov tokens failed, parse amount error")
+	}
 	// 比较account available balance amount
 	availableBalance := big.NewInt(0)
 	availableBalance.Sub(accountBalance.TotalBalance, accountBalance.LockedBalance[lockType])
